@@ -122,6 +122,57 @@ theorem C17_front_loop_exact {Feas : List Nat → Prop} (o : ParetoOracle Feas) 
   have : b = v := hv.2 b (hmin b hbR).1 (by simpa using hle)
   exact this ▸ hbR
 
+
+theorem nodup_sub_length {α : Type} [DecidableEq α] : ∀ {a b : List α}, a.Nodup → (∀ x ∈ a, x ∈ b) → a.length ≤ b.length := by
+  intro a
+  induction a with
+  | nil => intro b _ _; simp
+  | cons x t ih =>
+    intro b ha h
+    have hx : x ∈ b := h x (by simp)
+    obtain ⟨hxt, ht⟩ := List.nodup_cons.mp ha
+    have hsub : ∀ y ∈ t, y ∈ b.erase x := by
+      intro y hy
+      have hne : y ≠ x := by intro e; subst e; exact hxt hy
+      exact (List.mem_erase_of_ne hne).mpr (h y (by simp [hy]))
+    have := ih ht hsub
+    rw [List.length_erase_of_mem hx] at this
+    have hpos : 0 < b.length := List.length_pos_of_mem hx
+    simp only [List.length_cons]; omega
+
+/-- **termination**: if the Pareto-minimal feasible vectors all lie in a finite list `F` (e.g. a cube), the loop ends within
+`F.length` answers of the optimizer — each answer is a new Pareto-minimal vector -/
+theorem paretoLoop_terminates {Feas : List Nat → Prop} (o : ParetoOracle Feas) (F : List (List Nat))
+    (hF : ∀ v, ParetoMin Feas v → v ∈ F) : ∀ (fuel : Nat) (B : List (List Nat)), FrontInv Feas B →
+    F.length ≤ B.length + fuel → ∃ R, paretoLoop o fuel B = some R := by
+  intro fuel
+  induction fuel with
+  | zero =>
+    intro B hinv hlen
+    unfold paretoLoop
+    cases hp : o.pick B with
+    | none => exact ⟨B, rfl⟩
+    | some v =>
+      have hinv' := frontInv_step o B v hinv hp
+      have := nodup_sub_length hinv'.2 (fun x hx => hF x (hinv'.1 x hx))
+      simp only [List.length_cons] at this
+      omega
+  | succ n ih =>
+    intro B hinv hlen
+    unfold paretoLoop
+    cases hp : o.pick B with
+    | none => exact ⟨B, rfl⟩
+    | some v =>
+      have hinv' := frontInv_step o B v hinv hp
+      exact ih (v :: B) hinv' (by simp only [List.length_cons]; omega)
+
+/-- total correctness under the finiteness hypothesis -/
+theorem C17_front_loop_total {Feas : List Nat → Prop} (o : ParetoOracle Feas) (F : List (List Nat))
+    (hF : ∀ v, ParetoMin Feas v → v ∈ F) :
+    ∃ R, paretoLoop o F.length [] = some R ∧ (∀ v, v ∈ R ↔ ParetoMin Feas v) ∧ R.Nodup := by
+  obtain ⟨R, hR⟩ := paretoLoop_terminates o F hF F.length [] ⟨by simp, List.nodup_nil⟩ (by simp)
+  exact ⟨R, hR, C17_front_loop_exact o F.length R hR⟩
+
 /-- why the clause must exclude the whole cone above `m`: a weaker clause that only says "differs from `m`" leaves the
 dominated vectors allowed (here `[2]` after `[1]`), and the contract's minimality would then be relative to a set that still
 contains them only by luck of the optimizer. (The code before the repair had no blocking clause at all and returned the
